@@ -47,7 +47,7 @@ def main():
         quota = {'list': 4, 'list-mixed': 3, 'quant-ident': 6, 'regex-rewrite': 3, 'modifier': 4, 'condition': 6}
         tpl = templates.thin(tpl, quota, rnd)
     ck.extra['templates'] = len(tpl)
-    ck.run_units([('@statics', None), ('@history', None)] + [(name, templates.render(rule)) for _, name, rule in tpl], run_unit)
+    ck.run_units([('@statics', None), ('@history', None), ('@wide', None)] + [(name, templates.render(rule)) for _, name, rule in tpl], run_unit)
     ck.finish('(a) z3: all optimiser outputs of one (rule, switches) agree on every document; (b) write guard on every explored '
               'path; (c) repeated concrete optimise calls print one text [concrete, not solver-decided]')
 
@@ -158,10 +158,64 @@ def history_unit(ck):
     ck.samples.append({'form': 'history independence (concrete)', 'triples': n, 'orders': 3})
 
 
+def wide_unit(ck):
+    """rules far wider than the templates (26-entry mappings, 26 or-ed / and-ed identifiers, a 30-member list): the
+    optimiser must print one text and give one verdict however often it is asked [concrete runs: a pass that treats
+    wide groups differently - chunking, parallel workers - is out of the templates' reach]"""
+    import string
+    letters = string.ascii_lowercase
+    rules = {}
+    rules['mapping of 26 fields under not'] = 'detection:\n  A:\n' + ''.join("    f%s: 'x%s'\n" % (c, c) for c in letters) + \
+        '  condition: not A\ntrue_positives: []\ntrue_negatives: []\n'
+    ids = ''.join("  I%d:\n    g%s: 'v%s'\n" % (i, c, c) for i, c in enumerate(letters))
+    rules['26 identifiers or-ed'] = 'detection:\n' + ids + '  condition: ' + ' or '.join('I%d' % i for i in range(26)) + '\ntrue_positives: []\ntrue_negatives: []\n'
+    rules['26 identifiers and-ed under not'] = 'detection:\n' + ids + '  condition: not (' + ' and '.join('I%d' % i for i in range(26)) + ')\ntrue_positives: []\ntrue_negatives: []\n'
+    kinds = ['%s*', '*%s', '*%s*', 'i%s', '?%s', '%s']
+    rules['list of 30 mixed members'] = 'detection:\n  A:\n    f:\n' + ''.join("    - '%s'\n" % (kinds[i % 6] % ('m%02d' % i)) for i in range(30)) + \
+        '  condition: A\ntrue_positives: []\ntrue_negatives: []\n'
+
+    def doc(fields):
+        return {'$obj': [[list(k.encode()), {'$str': list(v.encode())}] for k, v in fields.items()]}
+    docs = [doc({('f' + c): ('x' + c) for c in letters}), doc({('f' + c): ('x' + c) for c in letters if c != 'c'} | {'fq': 'no'}),
+            doc({('g' + c): ('v' + c) for c in letters if c not in 'dk'} | {'gp': 'no'}), doc({'f': 'm07zz'}), doc({'f': 'zzm13'}), doc({})]
+    br1, br2 = ck.bridge(), artifacts.Bridge()
+    try:
+        for nm, y in rules.items():
+            base = br1.call(cmd='load', yaml=y, opts=None)
+            if not base.get('ok'):
+                ck.inconclusive.append('wide rule %r does not load: %r' % (nm, base))
+                continue
+            for opts in ([True, True, True, True], [False, False, True, False], [False, True, True, False], [True, False, True, True]):
+                ck.obligations += 1
+                shows, verdicts = set(), {}
+                for rep in range(6):
+                    for br in (br1, br2):
+                        r = br.call(cmd='load', yaml=y, opts=opts)
+                        shows.add(r.get('display') or str(r.get('panic')))
+                        for di, d in enumerate(docs):
+                            v = br.call(cmd='eval', yaml=y, opts=opts, doc=d, mode='flat')
+                            verdicts.setdefault(di, set()).add(str(v.get('verdict', v.get('panic'))))
+                ck.replays_ok += 12 * (1 + len(docs))
+                split = [di for di, vs in verdicts.items() if len(vs) > 1]
+                if len(shows) == 1 and not split:
+                    ck.discharged += 1
+                    continue
+                p = ck.write_replay('wide_' + safe(nm) + '_' + opts_label(opts), {'rule': y, 'opts': opts, 'distinct_displays': sorted(shows)[:4],
+                                                                                 'documents_with_several_verdicts': [docs[di] for di in split][:2]})
+                what = ('%d different printed expressions' % len(shows)) if len(shows) > 1 else 'different verdicts for one document'
+                ck.violations.append((p, 'wide rule %r, switches %s: repeated optimise() gives %s' % (nm, opts_label(opts), what)))
+    finally:
+        br2.close()
+    ck.samples.append({'form': 'wide rules, repeated optimise (concrete)', 'rules': len(rules)})
+
+
 def run_unit(ck, unit):
     name, yaml = unit
     if name == '@statics':
         statics_scan(ck)
+        return
+    if name == '@wide':
+        wide_unit(ck)
         return
     if name == '@history':
         history_unit(ck)
